@@ -35,7 +35,12 @@ Theorem C08_tree_inv : forall B (bstep : B -> bcall -> B * bans) ops (b : B),
 Proof. exact TreeStep.tree_inv_history. Qed.
 Print Assumptions C08_tree_inv.
 
-(** Tlopen, Tlcreate, Tmkdir/Tmknod/Tsymlink, Tsetattr, Treaddir, Tunlinkat, Txattrwalk, Txattrcreate *)
+(** The C08_fenced* theorems, C08_unlinked_name_has_no_node, C08_later_binding_fresh, C08_notified_partial and
+    C08_xattr_clone_refused are PER-REQUEST statements about an arbitrary state (unfoldings of the handler's
+    guard / of one primitive), not history theorems; C08_fenced_subtree is an induction over the node graph of an
+    arbitrary state.  The history theorems of this file are C08_tree_inv and pathB's C08_coherent /
+    C08_no_tree_panic / C08_notified_states.
+    Tlopen, Tlcreate, Tmkdir/Tmknod/Tsymlink, Tsetattr, Treaddir, Tunlinkat, Txattrwalk, Txattrcreate: *)
 Theorem C08_fenced : forall B bstep o c fid r s,
   fenced1 o c fid -> alookup peqb (c, fid) (s_fids B s) = Some r -> is_deleted B s r = true ->
   step B bstep o s = (rerr EINVAL, release B bstep r (hold B r s)).
